@@ -245,6 +245,9 @@ fn boolean_part(run: &Run, k_max: usize, small_full: bool, full_vals: bool) -> A
         // atoms whose texts differ only by punctuation (anything keyed on a lossy rendering of an operand collides)
         ["@.a.b".into(), "@.ab".into(), "@['a','b']".into()],
         ["@.a[0]".into(), "@.a0".into(), "@.a[0:1]".into()],
+        // ordering comparisons whose operands can be Nothing or non-numbers: `!(x < y)` is not `x >= y`
+        ["length(@.p)<2".into(), "count(@.q)>=1".into(), "@.r>0".into()],
+        ["length(@.p)>=length(@.q)".into(), "1<=length(@.r)".into(), "value(@.q)<=1".into()],
     ];
     let cells_collide: Vec<Value> = {
         let mut v = vec![];
@@ -304,7 +307,7 @@ fn boolean_part(run: &Run, k_max: usize, small_full: bool, full_vals: bool) -> A
     let mut total = Acc::new();
     for (ai, as_obj) in jobs {
         let atoms = &atom_sets[ai];
-        let cells = if ai == 4 { cells_odd.clone() } else if ai >= 5 { cells_collide.clone() } else { cells_plain.clone() };
+        let cells = if ai == 4 { cells_odd.clone() } else if ai == 5 || ai == 6 { cells_collide.clone() } else { cells_plain.clone() };
         // `$.c0` only exists in the object-shaped document; in the array-shaped one it is an absent member: both fine
         let wrap: &(dyn Fn(Vec<Value>) -> Value + Sync) = if as_obj { &wrap_obj } else { &wrap_arr };
         let doc = wrap(cells.clone());
